@@ -437,3 +437,758 @@ pub fn ambient_count() -> usize {
     });
     n
 }
+
+// ---------------------------------------------------------------------------
+// C19: generated capture sites
+// ---------------------------------------------------------------------------
+//
+// `bin/genlane --prop C19` writes call sites (`evt!`, `props!`, `emit!(rt, ..)`, `debug!/info!/warn!/error!(rt, ..)`)
+// whose 1-5 properties each pick a value, a capture form, an optional `#[emit::key]` rename and a placement
+// (extra pair, shorthand local, template hole). Next to every site the generator writes a `Vec<Want>`: per final key
+// what the capture form promises for that ORIGINAL value - the typed value itself, or text / JSON that rustc computes
+// from the original in the generated code (`format!("{}", x)`, `serde_json::to_string(&x)`, ...). The checks below
+// read every captured value back on several paths and compare. Nothing here looks at how the macros expand.
+
+pub use c19gen::*;
+
+pub mod c19gen {
+    use std::{collections::BTreeMap, error::Error, fmt, ops::ControlFlow};
+
+    use emit::{Props, Value};
+    use vcommon::*;
+
+    use super::Site;
+
+    // ---- fixed user types (serde::Serialize + sval::Value + Display + Debug) ----
+
+    /// a struct
+    #[derive(Clone, Debug, PartialEq, serde::Serialize, sval_derive::Value)]
+    pub struct Point {
+        pub x: i32,
+        pub y: i64,
+        pub label: String,
+    }
+
+    impl fmt::Display for Point {
+        fn fmt(&self, f: &mut fmt::Formatter) -> fmt::Result {
+            write!(f, "({}, {}) \"{}\"", self.x, self.y, self.label)
+        }
+    }
+
+    /// a newtype
+    #[derive(Clone, Debug, PartialEq, serde::Serialize, sval_derive::Value)]
+    pub struct Meters(pub f64);
+
+    impl fmt::Display for Meters {
+        fn fmt(&self, f: &mut fmt::Formatter) -> fmt::Result {
+            write!(f, "{} m", self.0)
+        }
+    }
+
+    /// a tuple struct
+    #[derive(Clone, Debug, PartialEq, serde::Serialize, sval_derive::Value)]
+    pub struct Pair(pub u8, pub String);
+
+    impl fmt::Display for Pair {
+        fn fmt(&self, f: &mut fmt::Formatter) -> fmt::Result {
+            write!(f, "<{}|{}>", self.0, self.1)
+        }
+    }
+
+    /// an enum with unit / newtype / struct variants
+    #[derive(Clone, Debug, PartialEq, serde::Serialize, sval_derive::Value)]
+    pub enum Shape {
+        Empty,
+        Radius(u32),
+        Rect { w: i32, h: i32 },
+    }
+
+    impl fmt::Display for Shape {
+        fn fmt(&self, f: &mut fmt::Formatter) -> fmt::Result {
+            match self {
+                Shape::Empty => write!(f, "empty"),
+                Shape::Radius(r) => write!(f, "circle r={}", r),
+                Shape::Rect { w, h } => write!(f, "rect {}x{}", w, h),
+            }
+        }
+    }
+
+    /// a string-keyed map
+    #[derive(Clone, Debug, PartialEq, serde::Serialize, sval_derive::Value)]
+    pub struct Tags(pub BTreeMap<String, i64>);
+
+    impl Tags {
+        pub fn of(entries: &[(&str, i64)]) -> Tags {
+            Tags(entries.iter().map(|(k, v)| (k.to_string(), *v)).collect())
+        }
+    }
+
+    impl fmt::Display for Tags {
+        fn fmt(&self, f: &mut fmt::Formatter) -> fmt::Result {
+            for (i, (k, v)) in self.0.iter().enumerate() {
+                write!(f, "{}{}={}", if i > 0 { "," } else { "" }, k, v)?;
+            }
+            Ok(())
+        }
+    }
+
+    /// a struct holding a SEQUENCE: never captured with `as_sval` by the generator (the known finding
+    /// `C19:sval-captured-seq:via-serde:malformed` is re-observed by the hand-written C19 monitor)
+    #[derive(Clone, Debug, PartialEq, serde::Serialize, sval_derive::Value)]
+    pub struct Route {
+        pub name: String,
+        pub stops: Vec<u16>,
+        pub legs: Vec<Shape>,
+    }
+
+    impl fmt::Display for Route {
+        fn fmt(&self, f: &mut fmt::Formatter) -> fmt::Result {
+            write!(f, "{} via {:?}", self.name, self.stops)
+        }
+    }
+
+    /// an error type with a source chain
+    #[derive(Clone, Debug, PartialEq, serde::Serialize, sval_derive::Value)]
+    pub struct AppError {
+        pub msg: String,
+        pub source: Option<Box<AppError>>,
+    }
+
+    impl AppError {
+        /// `chain(&["outer", "middle", "root"])`
+        pub fn chain(msgs: &[&str]) -> AppError {
+            AppError { msg: msgs[0].to_string(), source: if msgs.len() > 1 { Some(Box::new(AppError::chain(&msgs[1..]))) } else { None } }
+        }
+    }
+
+    impl fmt::Display for AppError {
+        fn fmt(&self, f: &mut fmt::Formatter) -> fmt::Result {
+            write!(f, "{}", self.msg)
+        }
+    }
+
+    impl Error for AppError {
+        fn source(&self) -> Option<&(dyn Error + 'static)> {
+            self.source.as_deref().map(|e| e as &(dyn Error + 'static))
+        }
+    }
+
+    /// a user type whose `ToValue` goes through serde (for `#[emit::as_value]`)
+    #[derive(Clone, Debug, PartialEq, serde::Serialize, sval_derive::Value)]
+    pub struct Celsius {
+        pub deg: f64,
+        pub station: String,
+    }
+
+    impl fmt::Display for Celsius {
+        fn fmt(&self, f: &mut fmt::Formatter) -> fmt::Result {
+            write!(f, "{}°C @{}", self.deg, self.station)
+        }
+    }
+
+    impl emit::value::ToValue for Celsius {
+        fn to_value(&self) -> Value<'_> {
+            Value::from_serde(self)
+        }
+    }
+
+    // ---- the expectation, as plain data ----
+
+    /// The original of a typed capture.
+    #[derive(Clone, Debug, PartialEq)]
+    pub enum Ty {
+        Bool(bool),
+        I8(i8),
+        I16(i16),
+        I32(i32),
+        I64(i64),
+        I128(i128),
+        Isize(isize),
+        U8(u8),
+        U16(u16),
+        U32(u32),
+        U64(u64),
+        U128(u128),
+        Usize(usize),
+        F32(f32),
+        F64(f64),
+        Char(char),
+        Str(String),
+    }
+
+    impl Ty {
+        fn is_int_or_bool(&self) -> bool {
+            !matches!(self, Ty::F32(_) | Ty::F64(_) | Ty::Char(_) | Ty::Str(_))
+        }
+    }
+
+    pub trait Prim {
+        fn ty(&self) -> Ty;
+    }
+
+    macro_rules! prims {
+        ($($t:ty => $v:ident,)*) => { $( impl Prim for $t { fn ty(&self) -> Ty { Ty::$v(*self) } } )* };
+    }
+
+    prims!(bool => Bool, i8 => I8, i16 => I16, i32 => I32, i64 => I64, i128 => I128, isize => Isize, u8 => U8, u16 => U16, u32 => U32, u64 => U64, u128 => U128, usize => Usize, f32 => F32, f64 => F64, char => Char,);
+
+    impl Prim for str {
+        fn ty(&self) -> Ty {
+            Ty::Str(self.to_string())
+        }
+    }
+
+    impl Prim for String {
+        fn ty(&self) -> Ty {
+            Ty::Str(self.clone())
+        }
+    }
+
+    impl<'a, T: Prim + ?Sized> Prim for &'a T {
+        fn ty(&self) -> Ty {
+            (**self).ty()
+        }
+    }
+
+    type DirectJson = (Result<String, String>, Result<String, String>);
+
+    /// The ORIGINAL value serialised directly by each reference consumer.
+    pub trait Direct {
+        fn direct(&self) -> DirectJson;
+    }
+
+    macro_rules! direct {
+        (both: $($t:ty),*; serde_only: $($s:ty),*) => {
+            $( impl Direct for $t {
+                fn direct(&self) -> DirectJson {
+                    (serde_json::to_string(self).map_err(|e| e.to_string()), sval_json::stream_to_string(self).map_err(|e| e.to_string()))
+                }
+            } )*
+            // sval has no impl for the pointer-sized integers: only serde_json has a direct image of the original
+            $( impl Direct for $s {
+                fn direct(&self) -> DirectJson {
+                    (serde_json::to_string(self).map_err(|e| e.to_string()), Err("sval::Value is not implemented for this type".into()))
+                }
+            } )*
+        };
+    }
+
+    direct!(both: bool, i8, i16, i32, i64, i128, u8, u16, u32, u64, u128, f32, f64, char, str, String, Option<i64>, Option<u32>, Option<bool>, Option<f64>,
+        Point, Meters, Pair, Shape, Tags, Route, AppError, Celsius; serde_only: isize, usize);
+
+    impl<'a, T: Direct + ?Sized> Direct for &'a T {
+        fn direct(&self) -> DirectJson {
+            (**self).direct()
+        }
+    }
+
+    fn json_of<T: Direct + ?Sized>(v: &T) -> DirectJson {
+        v.direct()
+    }
+
+    /// What one capture promises (same fields as the hand-written C19 monitor's `Expect`).
+    #[derive(Clone, Debug, Default)]
+    pub struct Exp {
+        /// `false`: the key must be absent (optional None)
+        pub present: bool,
+        /// present with a null value (`as_value` of `None`)
+        pub null: bool,
+        /// the value may read as null (an `Option` original whose JSON image is what is compared)
+        pub null_ok: bool,
+        /// the primitive that must be pulled back
+        pub typed: Option<Ty>,
+        /// `to_string()` must equal this
+        pub text: Option<String>,
+        /// `{:?}` (and, where given, `{:#?}`) of the captured value must equal these
+        pub debug: Option<(String, Option<String>)>,
+        /// serde_json / sval_json of the captured value must equal these (direct serialisation of the original)
+        pub json: Option<DirectJson>,
+        /// messages along `source()`
+        pub chain: Option<Vec<String>>,
+    }
+
+    impl Exp {
+        fn some() -> Exp {
+            Exp { present: true, ..Default::default() }
+        }
+
+        /// `#[emit::optional]` of `None`: no key at all
+        pub fn absent() -> Exp {
+            Exp::default()
+        }
+
+        /// `#[emit::as_value]` of `None::<T>`: the key with a null value
+        pub fn null() -> Exp {
+            Exp { null: true, ..Exp::some() }
+        }
+
+        /// present, nothing else is settled (counted, not judged)
+        pub fn unjudged() -> Exp {
+            Exp::some()
+        }
+
+        /// present, possibly as a null value, nothing else is settled (counted, not judged)
+        pub fn unjudged_nullable() -> Exp {
+            Exp { null_ok: true, ..Exp::some() }
+        }
+
+        /// A typed capture of a primitive: pulled back as the same typed value, Display text and JSON of the
+        /// original. An f32 is stored widened to f64 (DESIGN 12.7a, unjudged): compared numerically only.
+        pub fn typed<T: Prim + fmt::Display + Direct + ?Sized>(v: &T) -> Exp {
+            let ty = v.ty();
+            let widened = matches!(ty, Ty::F32(_));
+            Exp { typed: Some(ty), text: (!widened).then(|| v.to_string()), json: (!widened).then(|| json_of(v)), ..Exp::some() }
+        }
+
+        /// `#[emit::as_debug(inspect: true)]` of a primitive: typed; `{:?}` of the value is the original's
+        /// Debug text; `to_string()` is judged where Debug and Display text coincide (integers, booleans).
+        pub fn typed_debug<T: Prim + fmt::Debug + Direct + ?Sized>(v: &T) -> Exp {
+            let ty = v.ty();
+            let widened = matches!(ty, Ty::F32(_));
+            Exp {
+                text: ty.is_int_or_bool().then(|| format!("{:?}", v)),
+                debug: (!widened).then(|| (format!("{:?}", v), None)),
+                json: (!widened).then(|| json_of(v)),
+                typed: Some(ty),
+                ..Exp::some()
+            }
+        }
+
+        pub fn display<T: fmt::Display + ?Sized>(v: &T) -> Exp {
+            Exp { text: Some(format!("{}", v)), ..Exp::some() }
+        }
+
+        pub fn debug<T: fmt::Debug + ?Sized>(v: &T) -> Exp {
+            Exp { text: Some(format!("{:?}", v)), debug: Some((format!("{:?}", v), Some(format!("{:#?}", v)))), ..Exp::some() }
+        }
+
+        /// structure-preserving capture (`as_serde` / `as_sval` / a `ToValue` built on one of them)
+        pub fn json<T: Direct + ?Sized>(v: &T) -> Exp {
+            Exp { json: Some(json_of(v)), ..Exp::some() }
+        }
+
+        /// structure-preserving capture of an `Option<T>` original: `None` may be stored as a null value
+        pub fn json_nullable<T: Direct + ?Sized>(v: &T) -> Exp {
+            Exp { null_ok: true, ..Exp::json(v) }
+        }
+
+        pub fn error<E: Error + ?Sized>(e: &E) -> Exp {
+            let mut chain = vec![e.to_string()];
+            let mut cur = e.source();
+            while let Some(s) = cur {
+                chain.push(s.to_string());
+                cur = s.source();
+            }
+            Exp { chain: Some(chain), ..Exp::some() }
+        }
+    }
+
+    /// One property of a generated site.
+    #[derive(Clone, Debug)]
+    pub struct Want {
+        /// the FINAL key (after `#[emit::key]`)
+        pub key: &'static str,
+        /// capture form, e.g. `default`, `as_debug`, `as_sval-inspect`, `optional+as_serde`
+        pub cap: &'static str,
+        /// value class of the pool entry
+        pub kind: &'static str,
+        /// `pair`, `short`, `hole`, `hole-attrs`, `hole+pair`, `hole-pair`
+        pub place: &'static str,
+        pub exp: Exp,
+    }
+
+    impl Want {
+        pub fn new(key: &'static str, cap: &'static str, kind: &'static str, place: &'static str, exp: Exp) -> Want {
+            Want { key, cap, kind, place, exp }
+        }
+    }
+
+    // ---- observations ----
+
+    #[derive(Clone, Debug, Default, PartialEq)]
+    struct Casts {
+        bool_: Option<bool>,
+        i8_: Option<i8>,
+        i16_: Option<i16>,
+        i32_: Option<i32>,
+        i64_: Option<i64>,
+        i128_: Option<i128>,
+        isize_: Option<isize>,
+        u8_: Option<u8>,
+        u16_: Option<u16>,
+        u32_: Option<u32>,
+        u64_: Option<u64>,
+        u128_: Option<u128>,
+        usize_: Option<usize>,
+        f64_: Option<f64>,
+        string: Option<String>,
+        cow: Option<String>,
+        borrowed: Option<String>,
+    }
+
+    fn casts_of_value(v: &Value) -> Casts {
+        Casts {
+            bool_: v.by_ref().cast(),
+            i8_: v.by_ref().cast(),
+            i16_: v.by_ref().cast(),
+            i32_: v.by_ref().cast(),
+            i64_: v.by_ref().cast(),
+            i128_: v.by_ref().cast(),
+            isize_: v.by_ref().cast(),
+            u8_: v.by_ref().cast(),
+            u16_: v.by_ref().cast(),
+            u32_: v.by_ref().cast(),
+            u64_: v.by_ref().cast(),
+            u128_: v.by_ref().cast(),
+            usize_: v.by_ref().cast(),
+            f64_: v.by_ref().cast(),
+            string: v.by_ref().cast::<String>(),
+            cow: v.to_cow_str().map(|c| c.into_owned()),
+            borrowed: v.to_borrowed_str().map(|s| s.to_string()),
+        }
+    }
+
+    fn casts_of_props<P: Props + ?Sized>(p: &P, key: &str) -> Casts {
+        Casts {
+            bool_: p.pull::<bool, _>(key),
+            i8_: p.pull::<i8, _>(key),
+            i16_: p.pull::<i16, _>(key),
+            i32_: p.pull::<i32, _>(key),
+            i64_: p.pull::<i64, _>(key),
+            i128_: p.pull::<i128, _>(key),
+            isize_: p.pull::<isize, _>(key),
+            u8_: p.pull::<u8, _>(key),
+            u16_: p.pull::<u16, _>(key),
+            u32_: p.pull::<u32, _>(key),
+            u64_: p.pull::<u64, _>(key),
+            u128_: p.pull::<u128, _>(key),
+            usize_: p.pull::<usize, _>(key),
+            f64_: p.pull::<f64, _>(key),
+            string: p.pull::<String, _>(key),
+            cow: p.pull::<std::borrow::Cow<str>, _>(key).map(|c| c.into_owned()),
+            borrowed: p.pull::<&str, _>(key).map(|s| s.to_string()),
+        }
+    }
+
+    fn f64_same(a: f64, b: f64) -> bool {
+        (a.is_nan() && b.is_nan()) || a.to_bits() == b.to_bits()
+    }
+
+    /// Does the typed read give the original back (as the SAME type)?
+    fn casts_match(c: &Casts, t: &Ty) -> bool {
+        match t {
+            Ty::Bool(x) => c.bool_ == Some(*x),
+            Ty::I8(x) => c.i8_ == Some(*x),
+            Ty::I16(x) => c.i16_ == Some(*x),
+            Ty::I32(x) => c.i32_ == Some(*x),
+            Ty::I64(x) => c.i64_ == Some(*x),
+            Ty::I128(x) => c.i128_ == Some(*x),
+            Ty::Isize(x) => c.isize_ == Some(*x),
+            Ty::U8(x) => c.u8_ == Some(*x),
+            Ty::U16(x) => c.u16_ == Some(*x),
+            Ty::U32(x) => c.u32_ == Some(*x),
+            Ty::U64(x) => c.u64_ == Some(*x),
+            Ty::U128(x) => c.u128_ == Some(*x),
+            Ty::Usize(x) => c.usize_ == Some(*x),
+            // no FromValue for f32: stored widened (unjudged), compared numerically
+            Ty::F32(x) => c.f64_.map_or(false, |g| f64_same(g, *x as f64)),
+            Ty::F64(x) => c.f64_.map_or(false, |g| f64_same(g, *x)),
+            // no typed conversion exists for char: checked through its text and JSON
+            Ty::Char(_) => true,
+            Ty::Str(x) => c.string.as_deref() == Some(x.as_str()) && c.cow.as_deref() == Some(x.as_str()),
+        }
+    }
+
+    /// Everything one read of a value shows, as owned data.
+    #[derive(Clone, Debug)]
+    struct Obs {
+        null: bool,
+        display: String,
+        debug: String,
+        debug_alt: String,
+        serde: Result<String, String>,
+        sval: Result<String, String>,
+        casts: Casts,
+        chain: Option<Vec<String>>,
+    }
+
+    fn observe(v: Value) -> Obs {
+        // as the hand-written monitor does: `to_borrowed_error`, then `source()` along the chain
+        let chain = v.to_borrowed_error().map(|e| {
+            let mut out = vec![e.to_string()];
+            let mut cur = e.source();
+            while let Some(s) = cur {
+                out.push(s.to_string());
+                cur = s.source();
+            }
+            out
+        });
+        Obs {
+            null: v.is_null(),
+            display: v.to_string(),
+            debug: format!("{:?}", v),
+            debug_alt: format!("{:#?}", v),
+            serde: serde_json::to_string(&v).map_err(|e| e.to_string()),
+            sval: sval_json::stream_to_string(&v).map_err(|e| e.to_string()),
+            casts: casts_of_value(&v),
+            chain,
+        }
+    }
+
+    /// What the checks of one site found; written into the report by [`cap_flush`] (the emitter-side
+    /// checks run inside a closure that cannot hold the report).
+    #[derive(Default)]
+    pub struct CapOut {
+        counts: BTreeMap<String, u64>,
+        bad: Vec<(String, String)>,
+        pub events: u64,
+    }
+
+    impl CapOut {
+        fn observe(&mut self, what: &str, n: u64) {
+            *self.counts.entry(what.to_string()).or_insert(0) += n;
+        }
+
+        fn bad(&mut self, what: &str, w: &Want, path: &str, msg: String) {
+            self.bad.push((format!("C19:gen:{}:{}:{}", what, w.cap, path), format!("key {:?} ({} value, {} capture, placed as {}), read path {}: {}", w.key, w.kind, w.cap, w.place, path, msg)));
+        }
+    }
+
+    #[derive(Clone, Copy, PartialEq, Debug)]
+    enum Level {
+        /// direct / erased (also on the emitter's side): everything the capture form promises
+        Full,
+        /// owned / shared / ctxt / thread: numbers, booleans, strings and structured values (the statement lists
+        /// only those; Display/Debug-captured text and error chains are not constrained once buffered - an error
+        /// buffered through to_shared() loses its source chain, DESIGN 12.7a, unjudged)
+        Buffered,
+    }
+
+    fn clip(s: &str) -> String {
+        if s.len() > 300 {
+            let mut cut = 300;
+            while !s.is_char_boundary(cut) {
+                cut -= 1;
+            }
+            format!("{}…", &s[..cut])
+        } else {
+            s.to_string()
+        }
+    }
+
+    fn check_obs(out: &mut CapOut, w: &Want, obs: Option<Obs>, path: &str, level: Level, in_emitter: bool) {
+        out.observe(&format!("path:{}", path), 1);
+        let exp = &w.exp;
+        let obs = match (exp.present, obs) {
+            (false, None) => {
+                out.observe("check:none-adds-no-key", 1);
+                return;
+            }
+            (false, Some(o)) => return out.bad("none-adds-key", w, path, format!("optional None produced a property: {:?}", clip(&o.display))),
+            (true, None) => return out.bad("missing", w, path, "the captured property is missing".into()),
+            (true, Some(o)) => o,
+        };
+        if exp.null {
+            out.observe("check:null", 1);
+            if !obs.null {
+                out.bad("not-null", w, path, format!("None captured as a value must be null, got {:?}", clip(&obs.display)));
+            }
+            return;
+        }
+        if obs.null && !exp.null_ok {
+            return out.bad("unexpected-null", w, path, "the captured value reads as null".into());
+        }
+        if let Some(t) = &exp.typed {
+            out.observe("check:typed-pull", 1);
+            if !casts_match(&obs.casts, t) {
+                out.bad("typed-pull", w, path, format!("pulling back {:?} gave {:?}", t, obs.casts));
+            }
+            if let (Ty::Str(x), Level::Full) = (t, level) {
+                // a borrowed string is promised on the unbuffered paths only (as in the hand-written monitor:
+                // not for as_value, not on the emitter's side)
+                if w.cap != "as_value" && w.cap != "optional+as_value" && !in_emitter {
+                    out.observe("check:borrowed-str", 1);
+                    if obs.casts.borrowed.as_deref() != Some(x.as_str()) {
+                        out.bad("borrowed-str", w, path, format!("&str pull of {:?} gave {:?}", x, obs.casts.borrowed));
+                    }
+                }
+            }
+        }
+        let constrained_text = level != Level::Buffered || exp.typed.is_some();
+        if let (Some(want), true) = (&exp.text, constrained_text) {
+            out.observe("check:text", 1);
+            if &obs.display != want {
+                out.bad("text", w, path, format!("to_string() = {:?}, the original's text is {:?}", clip(&obs.display), clip(want)));
+            }
+        }
+        if let (Some((want, want_alt)), Level::Full) = (&exp.debug, level) {
+            out.observe("check:debug", 1);
+            if &obs.debug != want {
+                out.bad("debug", w, path, format!("{{:?}} = {:?}, the original's = {:?}", clip(&obs.debug), clip(want)));
+            }
+            if let Some(want_alt) = want_alt {
+                if &obs.debug_alt != want_alt {
+                    out.bad("debug-alt", w, path, format!("{{:#?}} = {:?}, the original's = {:?}", clip(&obs.debug_alt), clip(want_alt)));
+                }
+            }
+        }
+        if let (Some(want), Level::Full) = (&exp.chain, level) {
+            out.observe("check:error-chain", 1);
+            if obs.chain.as_ref() != Some(want) {
+                out.bad("error-chain", w, path, format!("source chain {:?}, the original's {:?}", obs.chain, want));
+            }
+        }
+        if let Some((direct_serde, direct_sval)) = &exp.json {
+            for (consumer, direct, got) in [("serde_json", direct_serde, &obs.serde), ("sval_json", direct_sval, &obs.sval)] {
+                let want = match direct {
+                    Ok(w) => w,
+                    Err(_) => {
+                        // the consumer cannot express the original: nothing to compare with
+                        out.observe("json:direct-inexpressible", 1);
+                        continue;
+                    }
+                };
+                out.observe(&format!("check:json:via-{}", consumer), 1);
+                if got.as_ref() != Ok(want) {
+                    let got_text = match got {
+                        Ok(g) => g.clone(),
+                        Err(e) => format!("<error: {}>", e),
+                    };
+                    out.bad(&format!("json-via-{}", consumer), w, path, format!("{} of the captured value = {:?}, of the original = {:?}", consumer, clip(&got_text), clip(want)));
+                }
+            }
+        }
+    }
+
+    fn check_value(out: &mut CapOut, w: &Want, v: Option<Value>, path: &str, level: Level, in_emitter: bool) {
+        match catch(|| v.map(observe)) {
+            Ok(o) => check_obs(out, w, o, path, level, in_emitter),
+            Err(p) => out.bad("panic", w, path, format!("reading the value panicked: {}", p)),
+        }
+    }
+
+    /// One unbuffered view of a property set: `get`, `pull::<T>` and the enumeration.
+    fn check_view<P: Props + ?Sized>(out: &mut CapOut, p: &P, wants: &[Want], path: &str, in_emitter: bool) {
+        for w in wants {
+            check_value(out, w, p.get(w.key), path, Level::Full, in_emitter);
+            if let Some(t) = &w.exp.typed {
+                out.observe("check:props-pull", 1);
+                match catch(|| casts_of_props(p, w.key)) {
+                    Ok(c) => {
+                        if !casts_match(&c, t) {
+                            out.bad("props-pull", w, path, format!("Props::pull of {:?} gave {:?}", t, c));
+                        }
+                    }
+                    Err(e) => out.bad("panic", w, path, format!("Props::pull panicked: {}", e)),
+                }
+            }
+            let mut n = 0usize;
+            let _ = p.for_each(|k, _| {
+                if k == w.key {
+                    n += 1;
+                }
+                ControlFlow::Continue(())
+            });
+            out.observe("check:enumeration", 1);
+            if n != w.exp.present as usize {
+                out.bad("enumeration", w, path, format!("the key is enumerated {} times, expected {}", n, w.exp.present as usize));
+            }
+        }
+    }
+
+    /// All read paths over one property set.
+    pub fn cap_check_props<P: Props>(out: &mut CapOut, p: &P, wants: &[Want], in_emitter: bool) {
+        check_view(out, p, wants, "direct", in_emitter);
+        {
+            let erased: &dyn emit::props::ErasedProps = p;
+            check_view(out, erased, wants, "erased", in_emitter);
+        }
+        // owned / shared copies of each value, a clone of the shared one, and both moved to another thread
+        let mut moved: Vec<(usize, emit::value::OwnedValue, emit::value::OwnedValue)> = Vec::new();
+        for (i, w) in wants.iter().enumerate() {
+            let v = match p.get(w.key) {
+                Some(v) => v,
+                None => continue,
+            };
+            match catch(|| (v.to_owned(), v.to_shared())) {
+                Err(e) => out.bad("panic", w, "owned", format!("to_owned / to_shared panicked: {}", e)),
+                Ok((o, s)) => {
+                    check_value(out, w, Some(o.by_ref()), "owned", Level::Buffered, in_emitter);
+                    check_value(out, w, Some(s.by_ref()), "shared", Level::Buffered, in_emitter);
+                    let s2 = s.clone();
+                    drop(s);
+                    check_value(out, w, Some(s2.by_ref()), "shared-clone", Level::Buffered, in_emitter);
+                    moved.push((i, o.by_ref().to_owned(), s2));
+                }
+            }
+        }
+        if !moved.is_empty() {
+            let res = std::thread::scope(|sc| sc.spawn(move || moved.iter().map(|(i, o, s)| (*i, catch(|| (observe(o.by_ref()), observe(s.by_ref()))))).collect::<Vec<_>>()).join());
+            match res {
+                Ok(seen) => {
+                    for (i, r) in seen {
+                        match r {
+                            Ok((a, b)) => {
+                                check_obs(out, &wants[i], Some(a), "thread", Level::Buffered, in_emitter);
+                                check_obs(out, &wants[i], Some(b), "thread-shared", Level::Buffered, in_emitter);
+                            }
+                            Err(e) => out.bad("panic", &wants[i], "thread", format!("reading on another thread panicked: {}", e)),
+                        }
+                    }
+                }
+                Err(_) => out.bad("panic", &wants[0], "thread", "the reader thread died".into()),
+            }
+        }
+        // buffered through an ambient frame: every property of the set pushed at once, read inside with_current
+        let ctxt = emit::platform::thread_local_ctxt::ThreadLocalCtxt::new();
+        let res = catch(|| {
+            let mut frame = emit::Frame::push(&ctxt, p);
+            let _g = frame.enter();
+            emit::Ctxt::with_current(&ctxt, |cur| wants.iter().map(|w| cur.get(w.key).map(observe)).collect::<Vec<_>>())
+        });
+        match res {
+            Ok(seen) => {
+                for (w, o) in wants.iter().zip(seen) {
+                    check_obs(out, w, o, "ctxt", Level::Buffered, in_emitter);
+                }
+            }
+            Err(e) => out.bad("panic", &wants[0], "ctxt", format!("buffering through the context panicked: {}", e)),
+        }
+    }
+
+    /// An event (built by `evt!`, or handed to an emitter): its props on every path, and once more through
+    /// the type-erased EVENT.
+    pub fn cap_check_event<P: Props>(out: &mut CapOut, evt: &emit::Event<P>, wants: &[Want], in_emitter: bool) {
+        out.events += 1;
+        cap_check_props(out, evt.props(), wants, in_emitter);
+        let erased = evt.erase();
+        check_view(out, erased.props(), wants, "erased-event", in_emitter);
+    }
+
+    /// Write what one site's checks found into the report. `expect_events`: how many events an `emit!`-style
+    /// site must have delivered to its emitter.
+    pub fn cap_flush(r: &mut Report, seed: u64, site: &Site, wants: &[Want], out: CapOut, expect_events: Option<u64>) {
+        r.observe(&format!("form:{}", site.form), 1);
+        r.observe("properties", wants.len() as u64);
+        for w in wants {
+            r.observe(&format!("cap:{}", w.cap), 1);
+            r.observe(&format!("value:{}", w.kind), 1);
+            r.observe(&format!("place:{}", w.place), 1);
+            if w.exp.present && !w.exp.null && w.exp.typed.is_none() && w.exp.text.is_none() && w.exp.debug.is_none() && w.exp.json.is_none() && w.exp.chain.is_none() {
+                r.observe(&format!("unjudged:{}:{}", w.cap, w.kind), 1);
+            }
+        }
+        for (k, n) in &out.counts {
+            r.observe(k, *n);
+        }
+        if let Some(n) = expect_events {
+            r.observe("events-emitted", out.events);
+            if out.events != n {
+                r.violation(&format!("C19:gen:emitted-count:{}", site.form), &format!("site {}: emitted {} events, expected {}", site.id, out.events, n), site.case(seed));
+            }
+        }
+        for (sig, what) in out.bad {
+            r.violation(&sig, &format!("site {} ({} {}): {}", site.id, site.form, site.mix, what), site.case(seed));
+        }
+    }
+}
